@@ -41,6 +41,12 @@ def run(res, tier):
     # M part: update() plumbing
     E = mprop.engine(res)
     check_update_plumbing(res, E)
+    import argslice
+    # the property bounds retention by the configured size "(at least one)": what is in force after --history n
+    # must not exceed max(n, 1); a clamp to at least one is not an alarm
+    argslice.check_cli_number(res, E, mprop, "history", "--history", False, "more change sets are then retained than the operator allowed",
+                              func="apply_server_arg_matches", struct="ServerArgs", cfg_name="history_size",
+                              accept=lambda after, given: z3.ULE(after, z3.If(given == 0, z3.BitVecVal(1, 64), given)))
     mprop.finish_engine(res, E)
 
 
